@@ -330,35 +330,38 @@ func TestAAAColdStart(t *testing.T) {
 			}
 		}
 	})
-	const workers = 12
+	const workers = 16
 	type outcome struct {
 		w, i int
 		got  []byte
 		n    int
 	}
 	results := make(chan outcome, workers*len(cases))
-	start := make(chan struct{})
-	var wg sync.WaitGroup
-	for w := 0; w < workers; w++ {
-		wg.Add(1)
-		go func(w int) {
-			defer wg.Done()
-			u, d := hook.Mem(hook.ClientCfg{})
-			<-start
-			for k := range cases {
-				i := (k + w*5) % len(cases) // the workers walk the operations in different rotations
-				d.Reset()
+	// one operation at a time, all goroutines released together: the FIRST use of every request type in this process is
+	// concurrent
+	for i := range cases {
+		start := make(chan struct{})
+		var ready, wg sync.WaitGroup
+		for w := 0; w < workers; w++ {
+			ready.Add(1)
+			wg.Add(1)
+			go func(w int) {
+				defer wg.Done()
+				u, d := hook.Mem(hook.ClientCfg{})
+				ready.Done()
+				<-start
 				api.Invoke(u, cases[i])
 				o := outcome{w: w, i: i, n: len(d.Sends())}
 				if o.n == 1 {
 					o.got = d.Sends()[0].Request
 				}
 				results <- o
-			}
-		}(w)
+			}(w)
+		}
+		ready.Wait()
+		close(start)
+		wg.Wait()
 	}
-	close(start)
-	wg.Wait()
 	close(results)
 	for o := range results {
 		want := spec.Request(cases[o.i].Call)
